@@ -25,10 +25,10 @@ TRUTH_POOL = [[], {}, [0], {'a': 1}, None, 0, '', 'x', 0.0, False, True, DT(2020
 
 
 def plan(tier, seed):
-    n = 500 if tier == 'quick' else 25000
+    n = 2500 if tier == 'quick' else 40000
     specs = [{'part': 'relational', 'n': n, 'shard': sh} for sh in range(12)]
     for sh in range(4):
-        specs.append({'part': 'csv', 'n': 300 if tier == 'quick' else 15000, 'shard': sh, 'env': {'TZ': ['UTC', 'America/New_York', 'Asia/Kolkata', 'Pacific/Chatham'][sh]}})
+        specs.append({'part': 'csv', 'n': 1500 if tier == 'quick' else 30000, 'shard': sh, 'env': {'TZ': ['UTC', 'America/New_York', 'Asia/Kolkata', 'Pacific/Chatham'][sh]}})
     return specs
 
 
